@@ -487,6 +487,22 @@ class Builder:
                         self.dangling)
                 self.dangling = []
                 return
+            if fs.data.get('thread') == 'raise':
+                # `raise self._error_for(...)`: what the helper returns is
+                # raised - each `return E` is a `raise E` where it stands,
+                # under whatever the helper tested on the way
+                if s.value is not None and self.dangling:
+                    rs = ast.Raise(exc=s.value, cause=None)
+                    ast.copy_location(rs, s)
+                    rs.end_lineno = getattr(s, 'end_lineno', None)
+                    self._expr(s.value, frame)
+                    if self.dangling:
+                        n = self._emit('stmt', rs, frame)
+                        self.dangling = []
+                        for tok in self._raise_tokens(rs, frame):
+                            self._raise_from(n, tok)
+                self.dangling = []
+                return
             if fs.data.get('thread'):
                 # the caller branches on the returned value: `return E` is a
                 # branch on E (jump threading), so that what the helper
@@ -514,6 +530,8 @@ class Builder:
             self._abrupt(fi, frame)
             self.stack[fi].data['returns'].extend(self.dangling)
             self.dangling = []
+        elif isinstance(s, ast.Raise) and self._raise_helper(s, frame):
+            pass
         elif isinstance(s, ast.Raise):
             if s.exc is not None:
                 self._expr(s.exc, frame)
@@ -1524,6 +1542,37 @@ class Builder:
         self.stack.pop()
         self.dangling = [(head, 'done')]
 
+    def _raise_helper(self, s: ast.Raise, frame) -> bool:
+        """`raise helper(...)` with the helper inlinable and every one of
+        its returns a value: build it as the helper's body with `return E`
+        read as `raise E`.  False = not such a raise (nothing emitted)."""
+        e = s.exc
+        if not isinstance(e, ast.Call) or s.cause is not None or \
+                frame.depth >= self.max_depth or not self.dangling:
+            return False
+        res = self._resolve(e, frame)
+        if len(res.targets) != 1 or res.externals or res.unresolved or \
+                res.ctor_of:
+            return False
+        t = res.targets[0]
+        active = {f.ctx.key() for f in frame.chain()}
+        if t.ctx().key() in active or t.func.is_generator or \
+                not self.inline(self, e, t, frame):
+            return False
+        from .model import walk_own
+        rets = [x for x in walk_own(t.func.node) if isinstance(x, ast.Return)]
+        if not rets or any(r.value is None for r in rets):
+            return False
+        self._expr(e.func, frame)
+        for a in e.args:
+            self._expr(a.value if isinstance(a, ast.Starred) else a, frame)
+        for k in e.keywords:
+            self._expr(k.value, frame)
+        if self.dangling:
+            self._inline(e, t, frame, res, thread='raise')
+        self.dangling = []
+        return True
+
     def _lambda_called(self, e: ast.Call, frame):
         """(lambda, frame it was written in) when the call is `p()` for a
         parameter p of an inlined function that was given a parameterless
@@ -1867,6 +1916,10 @@ class Builder:
                     ast.unparse(arg.func).endswith('partial') and arg.args)):
                 callee.bindings[pname] = (arg, this_af)
         self._body(f.node.body, callee)
+        if thread == 'raise':
+            self.stack.pop()
+            self.dangling = []
+            return []
         if thread:
             # falling off the end returns None
             fscope.data['ret_F'].extend(self.dangling)
